@@ -7,6 +7,18 @@ CHECKS = {
  "C01": ("exploration","seeded simulation: real serializer -> link with PRNG-decided segmentation -> real deserializer; exact sequence oracle","§4 C01",
          "Seeded search over sender scripts x segmentations (400k quick / 12M thorough runs). Finds any round-trip failure that needs a particular header history, chunk size or cut position; samples, does not enumerate.",
          "Trusts the link/driver stubs; raw type-1 messages announce the chunk size in force; messages bounded to 20,000 chunks."),
+ "C03": ("fault_enumeration","seeded simulation with hostile-peer fault injection (bitflip, overwrite, truncate, insert, duplicate, splice_header, hostile message vocabulary) into live scenarios; safety oracle (catch_unwind + overflow checks, counting allocator heap bound, worker watchdog)","§4 C03",
+         "Hostile bytes arrive mid-scenario in every world (deserializer + message decoder, handshake, server session, client session), after valid prefixes, at PRNG-chosen cuts; any panic, overflow, abort, hang or attributed heap excess is reported with seed and minimised replay.",
+         "AMF0 nesting bounded to 32 (C14 not claimed); heap constant 256x bytes received is generous by design; overflow-checks/debug-assertions on in the release build."),
+ "C05": ("exploration","seeded simulation: two handshake endpoints over two links; scheduler decides segmentation and interleaving of both directions, who starts, trailing data; RNG seam supplies packet contents","§4 C05",
+         "Seeded search over fragmentations/interleavings of real<->real and real<->reference-peer (original and fp9) handshakes; invariants: no Err, <=3073 bytes emitted with version 3, no completion before 3073 bytes received; end: both complete once, trailing bytes handed back intact exactly once.",
+         "After Completed the driver routes further input to the application; the reference peer is hand-written from the RTMP 1.0 / RTMPE documents."),
+ "C11": ("exploration","deterministic simulation stratified over the RNG seam: the simulator steers the handshake's random selector bytes through all 728 digest offsets per role and drives it against a reference peer using each scheme/offset; independent SHA-256/HMAC verifier","§4 C11",
+         "Quick tier covers the full 2x728 (own) + 2x2x728 (received) offset grid (4368 cells, measured); thorough adds 1M random fillings. Every packet 1 digest, packet 2 signature and digest-less echo is verified by an independent HMAC-SHA256.",
+         "Own SHA-256/HMAC implementation checked against FIPS 180-4 / RFC 4231 vectors at every start; role keys and the 32-byte suffix from the public RTMPE description."),
+ "C15": ("exploration","differential deterministic simulation: one byte stream, four link partitions (one call, byte-by-byte, PRNG, PRNG biased into header fields) into four fresh instances; outputs and error positions compared","§4 C15",
+         "Seeded search over valid library-produced, valid foreign and mutated streams; any dependence of deserializer / session results on call boundaries is reported.",
+         "Sessions: no application calls during the stream under test, Acknowledgements excluded (C17), clock frozen; outputs of the failing call are not compared."),
  "C06": ("exploration","seeded simulation: independent reference encoder as foreign peer (free encoder choices drawn from the choice stream) -> link segmentation -> real deserializer; exact sequence oracle","§4 C06",
          "Seeded search over foreign encodings (csid forms, legal header formats, extended timestamps, zero-length messages, in-band chunk sizes, wrapping deltas) x segmentations.",
          "Trusts RefChunkEncoder (cross-validated against the strict RefChunkDecoder at every start); messages bounded to 5,000 chunks."),
